@@ -360,7 +360,7 @@ def pyTypeToString (env : Env) (f : FieldCfg) (v : Val) : Outcome Val :=
       | none => .escape .valueError
     | _ => .escape .typeError
   | .decimal =>
-    -- `format(decimal.Decimal(field_data), '0' + str(field_length) + 'f')`
+    -- `format(decimal.Decimal(field_data), '0' + str(field_length or '') + 'f')` (a width of 0 is left out)
     let d? : Outcome Py.Dec :=
       match v with
       | .dec d => .ok d
